@@ -35,10 +35,10 @@ class C08(scen.WorldProp):
             humans = sorted(rng.sample(range(1, N + 1), rng.randint(0, N - 1)))
             wbells = [b for b in range(1, N + 1) if b not in humans]
             spec = {"type": "plainhunt", "stage": N, "start_row": None}
-            if rng.random() < 0.3:
+            if rng.random() < (0.3 if N < 10 else 0.6):
                 # a custom start row (shorter than, or as long as, the tower): every bell still has one owner and is
                 # struck once a row
-                k = rng.choice([N, N - 1, N - 2, N - 2])
+                k = max(3, rng.choice([N, N - 1, N - 2, N - 2, N - 3, N - 4]))
                 bells = list(range(1, k + 1))
                 rng.shuffle(bells)
                 if k >= 3 and rng.random() < 0.5:
@@ -47,8 +47,10 @@ class C08(scen.WorldProp):
                     j = rng.randint(0, len(bells))
                     bells[j:j] = [1, 2]
                 # (the method may be on fewer bells than the start row names: the others cover where the row put them)
-                st = rng.choice([k, k, max(3, k - 1), max(3, k - 2)])
-                spec = {"type": "plainhunt", "stage": min(st, k), "start_row": "".join(gens.BELLS[b - 1] for b in bells)}
+                # ... or on more (the start row is then completed for the stage first, for the tower after)
+                st = rng.choice([k, k, max(3, k - 1), max(3, k - 2), min(N, k + 1), min(N, k + 2), min(N, k + 1),
+                                 min(N, k + 2)])
+                spec = {"type": "plainhunt", "stage": st, "start_row": "".join(gens.BELLS[b - 1] for b in bells)}
             ps = 60
             I = scen.interval(ps, N)
             row_t = I * (N + 0.5)
